@@ -24,15 +24,15 @@ PID = "C08"
 TICK = 1000       # ticks per SI unit in the generated comparisons
 
 CFG = {
-    "quick": dict(BaseMags={0, 1000, 1000000, 500000000}, Rels={"default", "r100", "rmil"}, Abss={"none", "a1", "a50"},
+    "quick": dict(BaseMags={0, 1000, 1000000, 500000000}, Rels={"default", "r100", "rmil", "r0"}, Abss={"none", "a1", "a50"},
                   Spellings={"kilo", "milli"}, Families={"boundary", "mass", "complex", "dimension", "vector"}, MaxVec=3),
-    "thorough": dict(BaseMags={0, 1, 1000, 7919, 1000000, 31415926, 500000000}, Rels={"default", "r100", "rmil", "r5"},
+    "thorough": dict(BaseMags={0, 1, 1000, 7919, 1000000, 31415926, 500000000}, Rels={"default", "r100", "rmil", "r5", "r0"},
                      Abss={"none", "a0", "a1", "a50"}, Spellings={"kilo", "milli"},
                      Families={"boundary", "mass", "complex", "dimension", "vector"}, MaxVec=4),
 }
 INVARIANTS = ["TypeOK", "Disjoint", "SymmetricWithoutAbs", "UnitIndependent", "DimensionGuard", "Monotone", "SharpForReals",
               "FinalIsAllowed", "PassNeedsAll"]
-REL = {"default": None, "r100": Fraction(1, 100), "rmil": Fraction(1, 10**6), "r5": Fraction(1, 20)}
+REL = {"default": None, "r100": Fraction(1, 100), "rmil": Fraction(1, 10**6), "r5": Fraction(1, 20), "r0": Fraction(0)}
 ABS = {"none": None, "a0": 0, "a1": 1000, "a50": 50000}
 LEN = [[1, 1]] + [[0, 1]] * 7
 
@@ -212,8 +212,8 @@ def enumerate_and_replay(run: Run, sc, cfgd, pool):
 
 def random_record(rng: random.Random):
     """One random comparison in integer ticks (tick = 1/1000)."""
-    rel_name = rng.choice(["default", "default", "r100", "rmil", "r5"])
-    rel = REL[rel_name] or Fraction(1, 1000)
+    rel_name = rng.choice(["default", "default", "r100", "rmil", "r5", "r0"])
+    rel = Fraction(1, 1000) if REL[rel_name] is None else REL[rel_name]
     an = rng.choice([-1, -1, -1, 0, rng.randrange(1, 10**5)])
     dims = [LEN, [[0, 1], [0, 1], [1, 1]] + [[0, 1]] * 5, D1VEC, [[1, 1]] + [[0, 1]] * 6 + [[1, 1]],
             [[2, 1], [1, 1]] + [[0, 1]] * 6, [[0, 1], [1, 1]] + [[0, 1]] * 6, [[0, 1], [-1, 1]] + [[0, 1]] * 6]
@@ -303,7 +303,7 @@ def to_ticks(lhs, rhs, kwargs):
             return None, "infinite or NaN operand"
     rel = kwargs.get("relative_tolerance")
     relf = Fraction(1, 1000) if rel is None else Fraction(str(rel))
-    if relf <= 0 or relf.numerator > 20 or relf.denominator > 10**7:
+    if relf < 0 or relf.numerator > 20 or relf.denominator > 10**7:
         return None, "relative tolerance not a small fraction"
     m = max(abs(a["v"].real), abs(a["v"].imag), abs(b["v"].real), abs(b["v"].imag))
     ab = kwargs.get("absolute_tolerance")
@@ -400,7 +400,7 @@ def validate_records(run: Run, sc, recs, label):
     for i, x in enumerate(recs):
         c = x["case"]
         rel = REL[c["rel"]] if isinstance(c["rel"], str) else Fraction(*c["rel"])
-        rel = rel or Fraction(1, 1000)
+        rel = Fraction(1, 1000) if rel is None else rel
         an = ABS[c["an"]] if isinstance(c["an"], str) else c["an"]
         rows.append({"id": i + 1, "l": [{"k": o["k"], "re": o["re"], "im": o["im"], "d": o["d"]} for o in c["l"]],
                      "r": [{"k": o["k"], "re": o["re"], "im": o["im"], "d": o["d"]} for o in c["r"]],
